@@ -130,12 +130,23 @@ def c18_request_bytes(req, path="/p"):
 
 
 def c18_app_reply(app, start_response):
-    """WSGI behaviour of one scripted app entry (status bytes | int, headers, clen, pieces, retval[, (restarts, written)]).
+    """WSGI behaviour of one scripted app entry (status bytes | int, headers, clen, pieces, retval[, (restarts, written)[, err]]).
+    err = None | (k, status int, reason, title, detail, fault int|None, headers): the app raises httping.HTTPError after its iterator has
+    yielded k items (k < 0: the app callable raises at once, before start_response).
     restarts: earlier start_response calls [(status, headers, clen)] made before the final one — every call after the first passes
     exc_info (the PEP 3333 error restart, legal as long as nothing has been written); written: non-empty pieces the app hands to the
     write() callable returned by start_response before it returns its iterable"""
     status, headers, clen, pieces, retval = app[:5]
     restarts, written = app[5] if len(app) > 5 else ([], [])
+    err = app[6] if len(app) > 6 else None
+
+    def fail():
+        k, st, reason, title, detail, fault, ehs = err
+        from hio.core.http import httping
+        raise httping.HTTPError(st, reason=reason.decode("latin-1"), title=title.decode("latin-1"), detail=detail.decode("latin-1"), fault=fault,
+                                headers={n.decode("latin-1"): v.decode("latin-1") for n, v in ehs})
+    if err is not None and err[0] < 0:
+        fail()                      # the app callable itself raises, before it has called start_response
 
     def call(st, hd, cl, exc):
         hs = [(n.decode("latin-1"), v.decode("latin-1")) for n, v in hd]
@@ -157,8 +168,12 @@ def c18_app_reply(app, start_response):
         write(w)
 
     def gen():
-        for p in pieces:
+        for i, p in enumerate(pieces):
+            if err is not None and i == err[0]:
+                fail()
             yield p
+        if err is not None and err[0] >= len(pieces):
+            fail()
         return retval
     return gen()
 
@@ -183,8 +198,13 @@ def c18_run(case, max_cycles=None):
     from hio.core import tcp
     from hio.core.http import serving, httping
     reqs, apps, quota = case[0], case[1], case[3]
-    cuts, gap = case[2][0], case[2][1]
-    tymist = tyming.Tymist(tyme=0.0)
+    paced = case[2][0] == "paced"
+    # ("paced", idles, tock): every request is fed alone, the exchange runs to quiescence, then the clock jumps by idles[i] seconds
+    # with nothing on the wire; tock = seconds of virtual time per service pass (0: the Tymist default), so that an app that yields
+    # empty pieces really lets time pass
+    cuts, gap = ([], 1) if paced else (case[2][0], case[2][1])
+    idles, tock = (case[2][1], case[2][2]) if paced else ([], 0)
+    tymist = tyming.Tymist(tyme=0.0, tock=float(tock)) if tock else tyming.Tymist(tyme=0.0)
     calls = []
 
     def app(environ, start_response):
@@ -200,8 +220,9 @@ def c18_run(case, max_cycles=None):
     sock = FakeSock(quota=quota)
     ca = sock.peer
     sched = case[2]
-    bs = sched[2] if len(sched) > 2 else (1 << 16)       # receive buffer size of the connection: small values make one request arrive over many recv()s
-    ix = tcp.Remoter(tymth=tymist.tymen(), ha=sock.name, ca=ca, cs=sock, bs=bs)
+    bs = sched[2] if (not paced and len(sched) > 2) else (1 << 16)       # receive buffer size of the connection: small values make one request arrive over many recv()s
+    # the connection gets the idle timeout the http Server gives its servant (Server.Tymeout): the reaper in serviceConnects is live
+    ix = tcp.Remoter(tymth=tymist.tymen(), ha=sock.name, ca=ca, cs=sock, bs=bs, tymeout=serving.Server.Tymeout)
     servant.ixes[ca] = ix
     server = serving.Server(servant=servant, app=app)
     stream = b"".join(c18_request_bytes(r) for r in reqs)
@@ -212,6 +233,26 @@ def c18_run(case, max_cycles=None):
     try:
         prev = 0
         budget = max_cycles or 200000      # hard cap only; the loop ends on quiescence
+
+        def settle():
+            idle = 0
+            for _ in range(budget):
+                before = (len(sock.sent), sock.closed, len(calls), len(ix.txbs))
+                server.service()
+                tymist.tick()
+                idle = idle + 1 if before == (len(sock.sent), sock.closed, len(calls), len(ix.txbs)) else 0
+                if idle > 6 + max((len(a[3]) for a in apps), default=0):
+                    break
+        if paced:
+            for i, r in enumerate(reqs):
+                if not sock.closed:
+                    sock.feed(c18_request_bytes(r))
+                settle()
+                tymist.tyme += float(idles[i] if i < len(idles) else 0)
+                for _ in range(3):
+                    server.service()
+                    tymist.tick()
+            pts = []
         for p in pts:
             if p > prev and not sock.closed:
                 sock.feed(stream[prev:p])
@@ -369,19 +410,20 @@ def c19_bodiless(method, status):
 
 
 def c19_response_bytes(resp, method=b"GET"):
-    """resp = (status, loc, body, framing, delay, cuts, close)
+    """resp = (status, loc, body, framing, delay, cuts, close[, k100])     k100 = number of interim 100 Continue responses sent first
        loc: None | (secure 0|1, port, target bytes: path, optionally ?query)
        framing: 0 Content-Length | 1 chunked | 2 until-close | 3 Content-Length but truncated by close
        For a bodiless response (HEAD request, 1xx / 204 / 304) the head is the same (Content-Length = entity length, or
        Transfer-Encoding: chunked) but NO body byte is sent, as a correct server does.
        returns (bytes, close_after)"""
-    status, loc, body, framing, delay, cuts, close = resp
+    status, loc, body, framing, delay, cuts, close = resp[:7]
+    k100 = resp[7] if len(resp) > 7 else 0
     lines = ["HTTP/1.1 %d %s" % (status, REASONS.get(status, "X"))]
     if loc is not None:
         sec, port, path = loc
         lines.append("Location: %s://%s:%d%s" % ("https" if sec else "http", HOST, port, path.decode("ascii")))
     out = None
-    if framing == 0:
+    if framing in (0, 4):      # 4: a complete length-delimited response; LATER, with the client idle, the server says 408 on its own and closes
         lines.append("Content-Length: %d" % len(body))
         out = body
     elif framing == 1:
@@ -402,7 +444,12 @@ def c19_response_bytes(resp, method=b"GET"):
     if c19_bodiless(method, status):
         out = b""
     head = ("\r\n".join(lines) + "\r\n\r\n").encode("ascii")
-    return head + out, bool(close)
+    # interim responses (RFC 7231 6.2.1: any number of 100 Continue may precede the final response; a client must read past all of them)
+    interim = b"".join([b"HTTP/1.1 100 Continue\r\n\r\n", b"HTTP/1.1 100 Continue\r\nX-Interim: %d\r\n\r\n" % i, b"HTTP/1.1 100 \r\n\r\n"][i % 3] for i in range(k100))
+    return interim + head + out, bool(close)
+
+
+UNSOLICITED = b"HTTP/1.1 408 Request Timeout\r\nContent-Length: 0\r\nConnection: close\r\n\r\n"   # what an idle-timing-out server says before it closes
 
 
 class World:
@@ -440,6 +487,7 @@ class World:
         if port not in self.scripts:
             return
         self.sent_to[port] += len(data)
+        sock.doom_at = None          # the client is not idle: the server's idle timeout does not fire
         # a byte of a new request while an earlier request is still unanswered = not one at a time
         if self.inflight > 0:
             self.overlap = True
@@ -464,7 +512,9 @@ class World:
             for i, p in enumerate(pts):
                 sock.timeline.append((base + i, raw[prev:p], p == len(raw)))
                 prev = p
-            if close:
+            if resp[3] == 4:
+                sock.doom_at = base + len(pts) + 2      # unless the client sends something before then (it is not idle): see on_send / release
+            elif close:
                 sock.timeline.append((base + len(pts) - 1, None, False))
 
     def tick(self):
@@ -473,6 +523,10 @@ class World:
 
     def release(self):
         for port, sock in self.socks:
+            if getattr(sock, "doom_at", None) is not None and sock.doom_at <= self.tick_no and not sock.timeline:
+                sock.feed(UNSOLICITED)
+                sock.eof()
+                sock.doom_at = None
             keep = []
             for rel, data, last in sock.timeline:
                 if rel <= self.tick_no:
@@ -505,7 +559,8 @@ def c19_run(case):
     from hio.core import tcp
     from hio.core.http import clienting, httping
     secure, reqs, servers, late = case[:4]
-    second = list(case[4]) if len(case) > 4 else []      # requests queued after the first batch is over, following client.reopen()
+    second = list(case[4]) if len(case) > 4 else []      # requests queued after the first batch is over, following client.reopen() ...
+    do_reopen = bool(case[5]) if len(case) > 5 else True   # ... or on the connection as it is
     world = World(servers)
     tymist = tyming.Tymist(tyme=0.0)
     RealClient, RealClientTls = tcp.Client, tcp.ClientTls
@@ -627,7 +682,8 @@ def c19_run(case):
                 if phase == 0 and second and not client.waited and not out["raised"] and queued >= len(reqs):
                     # second run on the same Client object: reopen the connection, queue more
                     phase = 1
-                    client.reopen()
+                    if do_reopen:
+                        client.reopen()
                     for k in range(len(reqs), len(allreqs)):
                         queue(k)
                     queued = len(allreqs)
@@ -996,10 +1052,10 @@ def c19_run_loopback(case):
         shims = {}       # (logical port, ca) -> FakeSock used as the World's per-connection state
 
         def render(resp, method):
-            st, loc, body, fr, delay, cuts, close = resp
+            st, loc, body, fr, delay, cuts, close = resp[:7]
             if loc is not None and loc[1] in portmap:
                 loc = (loc[0], portmap[loc[1]], loc[2])
-            return c19_response_bytes((st, loc, body, fr, delay, cuts, close), method)
+            return c19_response_bytes((st, loc, body, fr, delay, cuts, close) + tuple(resp[7:]), method)
 
         def serve_all():
             for port, srv in listeners.items():
